@@ -165,6 +165,8 @@ def tlc(module, cfg, *, files=None, workers=None, timeout=900, simulate=None, de
         with open(os.path.join(d, name), "w") as fh:
             fh.write(content)
     cmd = ["java", "-XX:+UseParallelGC"]
+    if str(workers) == "1":
+        cmd.append("-XX:ParallelGCThreads=2")      # many single-worker JVMs side by side: do not let each start 16 GC threads
     if heap:
         cmd.append("-Xmx" + heap)
     cmd.append("-Xss" + (stack or "64m"))
@@ -280,7 +282,7 @@ def validate_traces(module, cfg, lines, *, nproc=None, timeout=900, deque=False,
     from its postcondition. Returns dict(states=.., bad=[(case_id, reason, global_line)], runs=[TLCRun..]).
     Raises Inconclusive if some chunk was not fully consumed (machinery problem, not a property violation).
     """
-    nproc = nproc or min(NCPU, 16)
+    nproc = nproc or min(NCPU // 2, 8)       # measured: 8 JVMs x 18k lines in 6 s, 16 JVMs thrash (35 s)
     chunks = split_cases(lines, nproc, is_start)
     if not chunks:
         return {"states": 0, "transitions": 0, "bad": [], "runs": []}
